@@ -291,6 +291,11 @@ func (t *txmonitor) watchTx(txHash common.Hash, nonce uint64) (<-chan Result, er
 	t.mtx.Lock()
 	defer t.mtx.Unlock()
 
+	// after shutdown began nobody would ever answer this waiter
+	if t.baseCtx.Err() != nil {
+		return nil, ErrMonitorClosed
+	}
+
 	if t.waitMap[nonce] == nil {
 		t.waitMap[nonce] = make(map[common.Hash][]chan Result)
 	}
